@@ -151,7 +151,7 @@ reg("C01", harness="c01_deflate", level="exploration", deadline=(900, 2400), ext
                "decode to its input and equal a fresh object's output byte for byte. Encoder part: the ICF->bits kernels (base/_04/_06) on EVERY assignment "
                "of 16 token realisations (widths 2..48, dense around the per-lane limits) to the four lanes of a half-vector x both halves x bit "
                "phases 0..7, bit-exact against an independent concatenation of the codes. ADLEREDGE inputs (Adler-32 low word exactly 0, 1, 65520 at the end of the input "
-               "or at a chunk boundary) go through the full product, so the zlib trailer is checked at the wrap-around points of the modulus. FIBDIST inputs (copies whose "
+               "or at a chunk boundary) go through the full product, so the zlib trailer is checked at the wrap-around points of the modulus. Many-blocks streams: 65 000 .. 131 060 flushed 8-byte calls followed by 2 MiB in one call (more than 2^16 / 2^17 blocks in ONE stream), levels 0-3, smallest and default level buffer, zlib-decoded. FIBDIST inputs (copies whose "
                "distance codes have Fibonacci frequencies) make the encoder's own distance trees exceed 15 levels; the evidence counts produced blocks with 15-bit "
                "distance and literal/length codes. Level-buffer sizes between the named constants on 300 000-byte inputs; a log-file-like data pattern next to the periodic text.",
     level_note="inputs outside the families are not covered; trusted: ref/ref_inflate.c (self-checked against zlib), zlib 1.2.13",
@@ -191,7 +191,7 @@ reg("C07", harness="c07_stream", level="model_checking", deadline=(1000, 2400), 
     level_text="The state graph of the REAL isal_inflate (126 (in,out) choices per call) and isal_deflate (420 choices: in x out x flush x eos "
                "timing) is explored exhaustively with deduplication on the byte image of the context for short streams/inputs x levels x wrappers "
                "x CPU levels; on every transition bookkeeping, bytes written and output prefix are checked, at every terminal the result is "
-               "compared with the one-shot/reference result, and from EVERY reachable state generous calls must terminate correctly (progress). "
+               "compared with the one-shot/reference result, the SAME state object is recycled with isal_inflate_reset and must decode a next member (one call and 3-byte pieces) exactly, and from EVERY reachable state generous calls must terminate correctly (progress). "
                "Longer streams (up to >64 KiB output) are covered by the closure of all single split points and all uniform chunk-size pairs. "
                "Stored-fallback family: 300 000 (1 MiB) incompressible / mixed bytes x levels 1-3 x 8 level-buffer sizes (the named ones and the sizes half-way "
                "between them) x 6 (7) input piece sizes x 3 output piece sizes, every piece in its own mapping that is scribbled once consumed. Big-then-tiny histories "
